@@ -12,7 +12,7 @@ Summary of every non-terminal ("balanced"): the splitter state (flags, depth, le
 Context families (subsets of the splitter's state invariant; see ProductionChecker.in_family):
    TOP / TOPP : outside any block (_begin_depth == 0), level >= 0 / >= 1
    XB         : expression or plain statement inside CREATE .. BEGIN (any CASE depth, any loop-header flag)
-   BODY       : procedural statement level inside CREATE .. BEGIN (_in_case == 0, no pending loop header)
+   BODY       : procedural statement level inside CREATE .. BEGIN (not directly inside a branch of a CASE statement, no pending loop header)
    PROC0/DECL : after the CREATE header, before BEGIN / inside a DECLARE section
 A production whose triple fails yields a concrete script (the production instantiated with minimal bodies).
 """
@@ -196,13 +196,18 @@ def terminal_tokens(spelling):
 # ------------------------------------------------------------------------------------------- production checker
 
 ESTABLISHES_CREATE = {'prochdr'}
-FIELDS = ('_in_declare', '_in_case', '_is_create', '_begin_depth', 'level', 'consume_ws', '_in_loop_header', '_in_ddl')
+FIELDS = ('_in_declare', '_case_levels', '_is_create', '_begin_depth', 'level', 'consume_ws', '_in_loop_header', '_in_ddl')
+# _case_levels: the stack of levels at which the CASE blocks that raised the level were opened (an abstract integer stack:
+# length, top and a version number; "unchanged" means the same version, i.e. the same sequence of entries).
 # _in_ddl ("inside a DDL statement of a body": its IF [NOT] EXISTS is not a block opener) is set by a DDL keyword inside a
 # body and cleared by the ';' that ends the statement.  Non-terminals that can derive a DDL statement may leave it in any
 # state; non-terminals whose productions all end with ';' leave it cleared; every other non-terminal never sets it (a ';'
 # inside parentheses may clear it).
 MAY_SET_DDL = {'ddl', 'stmt', 'pstmt'}
 SEMI_ENDING = {'pstmts', 'decls'}
+
+
+_CONCRETE_STACK_IDS = {}
 
 
 class ProductionChecker:
@@ -249,8 +254,22 @@ class ProductionChecker:
             if isinstance(v, int):
                 return z3.IntVal(v)
             return v.z
-        nocase = zz('_in_case') == 0 if z3.is_int(zz('_in_case')) else z3.Not(zz('_in_case'))
-        anycase = zz('_in_case') >= 0 if z3.is_int(zz('_in_case')) else z3.BoolVal(True)
+        stk = o.get('_case_levels')
+        if isinstance(stk, LRef) and all(it[0] == 'el' for it in st.lists[stk.lid]):
+            items = st.lists[stk.lid]
+            slen = z3.IntVal(len(items))
+            stop = (items[-1][1].z if hasattr(items[-1][1], 'z') else z3.IntVal(items[-1][1])) if items else z3.IntVal(0)
+        elif isinstance(stk, Rec) and stk.kind == 'istack':
+            so = st.objs[stk.oid]
+            slen, stop = so['len'], so['top']
+        else:
+            raise OutsideSubset('the splitter has no stack of open CASE blocks (_case_levels)')
+        # every recorded level lies below the current level (the CASE raised it); `direct`: the innermost opener that an
+        # END would close is a CASE (nothing closed by END was opened since)
+        stack_inv = z3.And(slen >= 0, z3.Implies(slen > 0, z3.And(stop >= 0, stop <= zz('level') - 1)))
+        direct = z3.And(slen > 0, stop == zz('level') - 1)
+        nocase = slen == 0
+        anycase = stack_inv
         hdr = zz('_in_loop_header') if '_in_loop_header' in o else z3.BoolVal(False)
         ddl = zz('_in_ddl') if '_in_ddl' in o else z3.BoolVal(False)
         cs = [z3.Not(zz('consume_ws'))]
@@ -265,12 +284,12 @@ class ProductionChecker:
             cs += [zz('_is_create'), zz('_begin_depth') == 0, zz('_in_declare'), zz('level') >= 1, nocase, z3.Not(ddl)]
         elif fam == 'XB':       # expression / plain statement inside a procedural body
             cs += [zz('_is_create'), zz('_begin_depth') >= 1, z3.Not(zz('_in_declare')), zz('level') >= 1, anycase]
-        elif fam == 'BODY':     # procedural statement level inside a body
-            cs += [zz('_is_create'), zz('_begin_depth') >= 1, z3.Not(zz('_in_declare')), zz('level') >= 1, nocase,
-                   z3.Not(hdr), z3.Not(ddl)]
+        elif fam == 'BODY':     # procedural statement level inside a body, not directly inside a CASE statement's branch
+            cs += [zz('_is_create'), zz('_begin_depth') >= 1, z3.Not(zz('_in_declare')), zz('level') >= 1, stack_inv,
+                   z3.Not(direct), z3.Not(hdr), z3.Not(ddl)]
         elif fam == 'BODYC':    # procedural statement level inside a branch of a CASE statement
-            cs += [zz('_is_create'), zz('_begin_depth') >= 1, z3.Not(zz('_in_declare')), zz('level') >= 1, anycase,
-                   z3.Not(hdr), z3.Not(ddl)]
+            cs += [zz('_is_create'), zz('_begin_depth') >= 1, z3.Not(zz('_in_declare')), zz('level') >= 1, stack_inv,
+                   direct, z3.Not(hdr), z3.Not(ddl)]
         elif fam == 'RESET':
             cs += [zz('_begin_depth') == 0, z3.Not(zz('_in_declare')), zz('level') == 0, nocase,
                    z3.Not(zz('_is_create')), z3.Not(hdr), z3.Not(ddl)]
@@ -295,6 +314,17 @@ class ProductionChecker:
 
     def field_z(self, st, me, n):
         v = st.objs[me.oid][n]
+        if isinstance(v, Rec) and v.kind == 'istack':
+            # (the empty stack has one identity, however it came about)
+            so = st.objs[v.oid]
+            return z3.If(so['len'] == 0, z3.IntVal(0), z3.IntVal(so['vid']))
+        if isinstance(v, LRef):
+            # a concrete list (e.g. the `[]` that _reset() assigns): identified by its entries; the empty list is 0
+            items = st.lists[v.lid]
+            if not items:
+                return z3.IntVal(0)
+            key = tuple(str(getattr(it[1], 'z', it[1])) for it in items)
+            return z3.IntVal(-1 - _CONCRETE_STACK_IDS.setdefault(key, len(_CONCRETE_STACK_IDS)))
         if isinstance(v, bool):
             return z3.BoolVal(v)
         if isinstance(v, int):
